@@ -78,7 +78,7 @@ impl Packet {
     /// Asynchronously decode a packet from an async reader.
     pub async fn decode_async<T: AsyncRead + Unpin>(reader: &mut T) -> Result<Self, ErrorV5> {
         let header = Header::decode_async(reader).await?;
-        Ok(match header.typ {
+        let packet = match header.typ {
             PacketType::Pingreq => Packet::Pingreq,
             PacketType::Pingresp => Packet::Pingresp,
             PacketType::Connect => Connect::decode_async(reader, header).await?.into(),
@@ -94,7 +94,13 @@ impl Packet {
             PacketType::Unsuback => Unsuback::decode_async(reader, header).await?.into(),
             PacketType::Disconnect => Disconnect::decode_async(reader, header).await?.into(),
             PacketType::Auth => Auth::decode_async(reader, header).await?.into(),
-        })
+        };
+        // The body must fit in the frame the fixed header declared: a packet whose
+        // canonical encoding is longer than that frame was read past the frame's end.
+        if packet.encode_len()? > total_len(header.remaining_len as usize)? {
+            return Err(Error::InvalidRemainingLength.into());
+        }
+        Ok(packet)
     }
 
     /// Asynchronously encode the packet to an async writer.
